@@ -453,6 +453,7 @@ func RunResidue(e *Env) {
 		"during the soak, sampled every few hundred calls: routers <= calls still open in the harness x nodes; distinct = soak parameters"
 	R.Assume("router count is read through the build-tag accessor VerifRouterCount under the channel's own lock; goroutines are attributed by function name in the runtime's dump")
 	rng := e.Rand(18)
+	stuck := 0
 	nsoak := e.Pick(24, 600)
 	for i := 0; i < nsoak; i++ {
 		if e.Of > 1 && i%e.Of != e.Batch {
@@ -501,14 +502,17 @@ func RunResidue(e *Env) {
 					}
 				}
 			}
-			if time.Since(t.Start) > 4*time.Minute {
+			if time.Since(t.Start) > e.PickD(90*time.Second, 4*time.Minute) {
 				running = false
 			}
 		}
-		if hi := h.Await(t, 4*time.Minute); hi.Verdict != h.Returned {
+		if hi := h.Await(t, 3*time.Second); hi.Verdict != h.Returned {
 			R.Inconc("soak did not finish (foreign: progress): " + hi.Sig)
 			s.teardownGates()
 			s.cl.Close()
+			if stuck++; stuck >= 2 {
+				break // (every further soak is likely to wait out the same lack of progress)
+			}
 			continue
 		}
 		s.teardownGates()
